@@ -226,6 +226,9 @@ func modifyText(ops []hx.Sx) string {
 }
 
 func execModel(which int, cs hx.Sx) hx.Sx {
+	if which >= 42 && which <= 49 { // rename, move, flatten, ... : extra.go
+		return execExtra(which, cs)
+	}
 	it := hx.Items(cs)
 	switch which {
 	case 30:
@@ -907,6 +910,10 @@ func genModels(c *hmain.Ctx) {
 			c.W.Count(fmt.Sprintf("modify_seq_events_%d", len(hx.Items(hx.Items(o41)[2]))))
 		}
 	}
+
+	// ---- 42..49: rename, move, flatten, json_encode, json_decode, convert_log_level, set_time, add_host,
+	// add_file_name, convert_date, discard, debug, parse_es, cardinality (extragen.go)
+	genExtra(c)
 }
 
 // modifyOps: a substitution of 1..3 ops over the regexp-free filters
